@@ -640,11 +640,19 @@ func walkIPRanges(ranges []nets.IPRange, f func(ip net.IP) bool) {
 	for _, r := range ranges {
 		first := nets.IPToInt(r.First)
 		last := nets.IPToInt(r.Last)
-		for ; first <= last; first++ {
+		if first > last {
+			continue
+		}
+		// first <= last with first++ never ends if last is 255.255.255.255 because first wraps around to 0
+		for {
 			ip := nets.IntToIP(first)
 			if f(ip) {
 				return
 			}
+			if first == last {
+				break
+			}
+			first++
 		}
 	}
 }
